@@ -256,7 +256,7 @@ UNIT = dict(
         dict(name='put_get', harness='h_put_get', properties=['C26'], solvers=['cadical', 'z3'], timeout=dict(quick=300, thorough=900), floor=6, level='proved-modular'),
         dict(name='control', harness='h_control', properties=['C26'], solvers=['cadical', 'z3'], timeout=dict(quick=300, thorough=900), floor=2, level='proved-modular'),
         dict(name='last', harness='h_last', properties=['C26'], solvers=['cadical', 'z3'], timeout=dict(quick=300, thorough=900), floor=2, level='proved-modular'),
-        dict(name='range', harness='h_range', loop_contracts=True, properties=['C26', 'C18'], solvers=['cadical', 'z3'], timeout=dict(quick=600, thorough=1800), floor=5, level='proved-modular'),
+        dict(name='range', harness='h_range', loop_contracts=True, properties=['C26', 'C18'], solvers=['z3', 'cadical'], timeout=dict(quick=600, thorough=1800), floor=5, level='proved-modular'),
         dict(name='nearest', harness='h_nearest', loop_contracts=True, properties=['C26'], solvers=['cadical', 'z3'], timeout=dict(quick=300, thorough=900), floor=2, level='proved-modular'),
     ],
     trusted_base=['ASSUMED: std::map<unsigned, const std::string> insert/find/end/empty/rbegin/iterator increment (ascending key order) and std::string construction/copy/assignment/data behave as ISO C++ specifies, in the single-witness '
